@@ -33,7 +33,7 @@ theorem mweight_kill (os : OS) (m : MSt) : mweight (kill os m) ≤ mweight m := 
 theorem mweight_afterSolve (i : Nat) (b : Beh) : mweight (afterSolve i b) + 2 ≤ mweight .solving := by
   cases b <;> simp [mweight, afterSolve]
 
-theorem mweight_afterFlush (m : Msg) : mweight (afterFlush m) = 0 := by
+theorem mweight_afterFlush (m : Msg) : mweight (afterFlush m) ≤ 1 := by
   cases m <;> simp [mweight, afterFlush]
 
 theorem imeasure_decreases (s t : State) (h : IStep cfg s t) : imeasure t < imeasure s := by
@@ -52,6 +52,11 @@ theorem imeasure_decreases (s t : State) (h : IStep cfg s t) : imeasure t < imea
     simp only [imeasure, List.length_set, hc, List.length_cons, mweight] at *; omega
   | recvQuery i q cs hm hc =>
     simp only [imeasure, hc, List.length_cons]; omega
+  | serveCrash i _ hm =>
+    have h1 := sum_map_set mweight s.ms i _ .crashed hm
+    simp only [imeasure, List.length_set, mweight] at *; omega
+  | recvEOF v w q hp hr hd =>
+    simp only [imeasure, hp, pweight, List.length_nil]; omega
   | lateRecv i c cs _ hm hc =>
     have h1 := sum_map_set mweight s.ms i _ .killed hm
     simp only [imeasure, List.length_set, hc, List.length_cons, mweight] at *; omega
@@ -131,8 +136,17 @@ theorem progress_solve (s : State) (hi : Inv cfg s) (hs : inSolve s.p = true) : 
 theorem progress_query (s : State) (hq : QInv s) (v : Bool) (w q : Nat) (hp : s.p = .awaiting v w q) :
     ∃ t, IStep cfg s t := by
   obtain ⟨h1, _, _, h4⟩ := hq.await v w q hp
-  rcases h4 with ⟨hc, _⟩ | ⟨_, hr⟩
-  · exact ⟨_, IStep.recvQuery s w q [] h1 hc⟩
+  rename_i hd _
+  rcases h4 with ⟨hc, hr⟩ | ⟨_, hr⟩
+  · rcases h1 with h1 | h1
+    · exact ⟨_, IStep.recvQuery s w q [] h1 hc⟩
+    · -- the winner has died: the parent's `recv` ends with EOFError
+      refine ⟨_, IStep.recvEOF s v w q hp hr ?_⟩
+      intro m hm
+      obtain ⟨j, hj⟩ := List.mem_iff_getElem?.mp hm
+      by_cases hjw : j = w
+      · subst hjw; rw [h1] at hj; simp at hj; subst hj; rfl
+      · exact hd j hjw m hj
   · exact ⟨_, IStep.recvReply s v w q w q [] hp hr⟩
 
 /-! ### inevitability -/
